@@ -18,7 +18,8 @@ def run(ck):
                        "cell order and header widths of own output are not constrained; the contents of the optional index table of own output are not part of the property (reported as a note)"]
     ck.build_vh()
     # ---- S->C: foreign bags
-    pairs = cellcommon.gen_and_replay(ck)
+    pairs = [(v, r) for v, r in cellcommon.gen_and_replay(ck) if not v["deep"]]       # cells beyond the depth bound: C02's question
+    nrt = 0
     for v, r in pairs:
         cls = "%s:hashes=%s" % (v["magic"], str(v["hashes"]).lower())
         if r["panic"]:
@@ -29,10 +30,16 @@ def run(ck):
             ck.report("C01:foreign:tree:" + cls, "parsed cells differ from the DAG the bag denotes", {"kind": "gen", "vector": v, "got": r})
         elif r["hash"] != v["hash"]:
             ck.report("C01:foreign:hash:" + cls, "parsed root has a different hash than intended", {"kind": "gen", "vector": v, "got": r})
+        elif r["rt"]:
+            # the parsed DAG (exotic cells of every mask) serialised by the library under the 8 option combinations and parsed back
+            ck.report("C01:foreign:round-trip:" + v["kind"], "a parsed %s DAG does not survive serialisation + parsing: %s" % (v["kind"], "; ".join(x[:160] for x in r["rt"][:3])),
+                      {"kind": "gen", "vector": v, "got": r})
         else:
+            nrt += 1
             ck.traces_ok += 1
     ck.evaluations += len(pairs)
     ck.extra["foreign_vectors"] = len(pairs)
+    ck.extra["foreign_round_trips"] = nrt * 8
     ck.sample({"direction": "S->C", "vector": {k: (x if k != "boc" else x[:80] + "...") for k, x in pairs[len(pairs) // 3][0].items()}})
     v0, r0 = pairs[0]
     ck.canary("S->C: an expectation with a changed tree is flagged", (v0["tree"] + "x") != r0["tree"])
